@@ -1484,6 +1484,15 @@ def _reader_model(repo):
             super().__init__("h5file", attrs=dict(box["attrs"]))
             box["opened"] = (a, k)
 
+        def model_enter(self):
+            return self
+
+        def model_exit(self):
+            box["closed"] = box.get("closed", 0) + 1
+
+        def close(self):
+            box["closed"] = box.get("closed", 0) + 1
+
     class Section:
         model_object = True
 
@@ -1515,8 +1524,9 @@ def _reader_model(repo):
 
         def __getitem__(self, sec):
             return self.secs.setdefault(sec, Section(sec))
+    from ..lib_C11 import CONTEXTLIB
     globs = {"h5py": Namespace("h5py", File=File),
-             "Configuration": Config}
+             "Configuration": Config, "contextlib": CONTEXTLIB}
 
     def parse(attrs, as_path):
         box.update(attrs=attrs, assigned=[], raw=[], cfg_args=None,
@@ -2876,4 +2886,36 @@ TWINS = list(TWINS) + [
       '    valid = False\n    seen = {}\n    seen[key] = section\n'
       '    if section == "user":\n'
       '        if isinstance(key, str) and key.strip():  # sanity check')),
+]
+
+# round-5 refactoring (reduced): the optionally owned file of parse_config
+# handled by a contextlib.ExitStack
+TWINS = list(TWINS) + [
+    ("reader: optionally owned file through an ExitStack", H5,
+     [("import io\n", "import contextlib\nimport io\n"),
+      ("        if not isinstance(h5path, h5py.File):\n"
+       "            with h5py.File(h5path, mode=\"r\") as fh5:\n"
+       "                h5attrs = dict(fh5.attrs)\n"
+       "        else:\n"
+       "            h5attrs = dict(h5path.attrs)\n",
+       "        with contextlib.ExitStack() as stack:\n"
+       "            if isinstance(h5path, h5py.File):\n"
+       "                fh5 = h5path\n"
+       "            else:\n"
+       "                fh5 = stack.enter_context(h5py.File(h5path, "
+       "mode=\"r\"))\n"
+       "            h5attrs = dict(fh5.attrs)\n")]),
+    ("reader: optionally owned file through nullcontext", H5,
+     [("import io\n", "import contextlib\nimport io\n"),
+      ("        if not isinstance(h5path, h5py.File):\n"
+       "            with h5py.File(h5path, mode=\"r\") as fh5:\n"
+       "                h5attrs = dict(fh5.attrs)\n"
+       "        else:\n"
+       "            h5attrs = dict(h5path.attrs)\n",
+       "        if isinstance(h5path, h5py.File):\n"
+       "            ctx = contextlib.nullcontext(h5path)\n"
+       "        else:\n"
+       "            ctx = h5py.File(h5path, mode=\"r\")\n"
+       "        with ctx as fh5:\n"
+       "            h5attrs = dict(fh5.attrs)\n")]),
 ]
